@@ -111,7 +111,7 @@ SGX_PIN = "sgxpin1A"
 
 
 def sgx_world(ch, windows=None, extra_cfg=None, qe_auth=None, include_root=None, ca_curve=None,
-              seed=None):
+              seed=None, qe_digest_zero_tail=False):
     seed = seed if seed is not None else ch.bytes(6, "devseed")
     log, clock = EventLog(), Clock()
     now = clock.now
@@ -119,6 +119,15 @@ def sgx_world(ch, windows=None, extra_cfg=None, qe_auth=None, include_root=None,
     att_sk = sgxpki.sk_from(b"attkey" + seed)
     if qe_auth is None:
         qe_auth = ch.bytes(ch.pick([32, 0, 1, 1000, 200], "qe.auth.len"), "qe.auth")
+    if qe_digest_zero_tail:
+        # QE authentication data chosen so that the digest the QE report commits to ends in a zero byte
+        import hashlib as _h
+        base = qe_auth[:-2] if len(qe_auth) >= 2 else qe_auth
+        for n in range(1 << 16):
+            cand = base + n.to_bytes(2, "big")
+            if _h.sha256(att_sk.verifying_key.to_string() + cand).digest()[-1] == 0:
+                qe_auth = cand
+                break
     if include_root is None:
         include_root = ch.draw(2, "chain.two-certs") == 0
     mre = ch.bytes(32, "mrenclave")
